@@ -217,7 +217,7 @@ def _install_keys_where():
             # where does the map live?  find the heap cell holding this map term
             cell = None
             for key, v in path.heap.items():
-                if isinstance(v, VMap) and v.t is it.m.t:
+                if key[0] == 'f' and isinstance(v, VMap) and v.t is it.m.t:
                     cell = key
             if cell is None:
                 raise Unsupported('map being filtered is not a field')
@@ -225,6 +225,12 @@ def _install_keys_where():
             k = z3.String('loop_key!%d' % bp.fresh())
             cur = z3.Const('map_cur!%d' % bp.fresh(), it.m.t.sort())
             bp.heap[cell] = VMap(cur, it.m.kt, it.m.vt)
+            # locals that alias the same dict object (e.g. `registry = self.map.addr`) see the same current content
+            aliases = [key for key, v in path.heap.items() if key[0] == 'l' and isinstance(v, VMap) and v.t is it.m.t]
+            for key in aliases:
+                nv = VMap(cur, it.m.kt, it.m.vt)
+                nv.origin = getattr(path.heap[key], 'origin', None) or cell
+                bp.heap[key] = nv
             bp.assume(z3.Select(cur, k) == opt.dt.constructor(1)(it.val))
             for p2, r in ex.assign(st.target, VStr(k), bp, fr):
                 for p3, flow, v in ex.exec_block(st.body, p2, fr):
@@ -239,6 +245,10 @@ def _install_keys_where():
             path.assume(z3.ForAll([kk], z3.Select(new, kk) == z3.If(z3.Select(it.m.t, kk) == opt.dt.constructor(1)(it.val),
                                                                  opt.dt.constructor(0)(), z3.Select(it.m.t, kk))))
             path.heap[cell] = VMap(new, it.m.kt, it.m.vt)
+            for key in aliases:
+                nv = VMap(new, it.m.kt, it.m.vt)
+                nv.origin = getattr(path.heap[key], 'origin', None) or cell
+                path.heap[key] = nv
             return [(path, 'next', None)]
         return SocksModels.loop(self, ex, path, fr, st, it, ordinal)
     AddrModels.map_method = map_method
